@@ -52,7 +52,14 @@ def build_top(md):
     r = top.add_residue("DA", c2, 2, "SEGA")
     for an in ["P", "O5'", "C5'", "C4'", "O4'", "H5''", "C5"]:
         top.add_atom(an, el(an), r)
+    # force-field style lower-case names that merely BEGIN with an operator or keyword spelling: each is one bare word, i.e. one literal
+    r = top.add_residue("leu", c2, 3, "orx")
+    for an in LOWER_NAMES:
+        top.add_atom(an, E.carbon if an[0] != "n" else E.nitrogen, r)
     return top
+
+
+LOWER_NAMES = ["ne2", "and1", "orx", "lt3", "eq1", "ge1", "le5", "gta", "nex", "notb", "in2", "to1", "water1", "all2", "name3", "within"]
 
 
 def atom_table(md, top):
@@ -97,7 +104,7 @@ PREC = {"or": 0, "and": 1, "not": 2, "regex": 3, "cmp": 3, "kwbool": 4, "inlist"
 
 def gen_lit(rng, kind):
     if kind == "str":
-        s = rng.choice(["CA", "CB", "N", "O", "H1", "ALA", "GLY", "HOH", "NA", "SEGA", "ION", "C", "H", "A", "G", "LIG", "Ca", "X9", "O5'", "C5'", "C4'", "H5''", "C5", "DA", "P"])
+        s = rng.choice(["CA", "CB", "N", "O", "H1", "ALA", "GLY", "HOH", "NA", "SEGA", "ION", "C", "H", "A", "G", "LIG", "Ca", "X9", "O5'", "C5'", "C4'", "H5''", "C5", "DA", "P"] + LOWER_NAMES + ["leu", "orx"])
         return ("q", s) if ("'" in s or rng.random() < 0.35) else ("w", s)
     if kind == "int":
         return ("n", rng.choice([0, 1, 2, 3, 5, 7, 10, 11, 12, 25]))
